@@ -134,7 +134,19 @@ def run(prop, tier):
         for i in range(len(dspecs)):
             def outcome(n):
                 l = [x for x in filtered_log(os.path.join(wd, "d_" + n, "case_%d.log" % i)) if x.startswith(("RES", "END", "EV"))]
-                return [" ".join(x.split()[:4]) if x.startswith("RES") else x for x in l]      # ok / threw <class>, without the step counters
+                out = []
+                for x in l:
+                    if x.startswith("RES"):
+                        t = x.split()
+                        after_eof = any(y.startswith("afterFail=") and y != "afterFail=0" for y in t)
+                        # ok + snapshot digest, or threw + class; the digest only when nothing was read past the end of file
+                        # (what a failed read leaves in the buffer is undefined by the C++ library itself)
+                        out.append(" ".join(t[:3] if (after_eof and t[2] == "ok") else t[:4]))
+                    elif x.startswith("EV"):
+                        continue
+                    else:
+                        out.append(x)
+                return out
             ref = outcome(base)
             compared["damaged_input"] += 1
             for n in names[1:]:
